@@ -91,13 +91,31 @@ theorem repElems_set (st : List NodeM) (j : Nat) (c' : NodeM) (hr : repElems st 
   · exact h' hlx
 
 theorem repPairs_set (st : List PairM) (j : Nat) (p' : PairM) (hr : repPairs st = true)
-    (h1 : pairLive p' = true → p'.2.2.repOk = true) (h2 : pairLive p' = false → p'.2.1 = []) :
+    (h1 : pairLive p' = true → p'.2.2.repOk = true ∧ p'.1 = some p'.2.1)
+    (h2 : pairLive p' = false → p'.2.1 = [] ∧ p'.1 = none) :
     repPairs (st.set j p') = true := by
   rw [repPairs_iff] at hr ⊢
   intro x hx
   rcases List.mem_or_eq_of_mem_set hx with hx | rfl
   · exact hr x hx
   · exact ⟨h1, h2⟩
+
+theorem skel_set_val (st : List PairM) (j : Nat) (p : PairM) (c' : NodeM) (hp : st[j]? = some p)
+    (hpl : pairLive p = true) (hl' : c'.live = true) :
+    (st.set j (p.1, p.2.1, c')).map skelOf = st.map skelOf := by
+  apply List.ext_getElem?
+  intro i
+  simp only [List.getElem?_map, List.getElem?_set]
+  by_cases hij : j = i
+  · subst hij
+    have hlt : j < st.length := by
+      rcases Nat.lt_or_ge j st.length with h | h
+      · exact h
+      · rw [List.getElem?_eq_none h] at hp; simp at hp
+    simp only [if_true, hlt, hp, Option.map_some]
+    simp only [pairLive] at hpl
+    simp [skelOf, pairLive, hl', hpl]
+  · simp [hij]
 
 theorem allLive_set {α : Type} (live : α → Bool) (st : List α) (j : Nat) (y : α) (h : ∀ x ∈ st, live x = true)
     (hy : live y = true) : ∀ x ∈ st.set j y, live x = true := by
@@ -138,6 +156,7 @@ theorem setChildAt_spec (m : NodeM) (j i : Nat) (c' : NodeM) (hm : m.repOk = tru
     simp only [NodeM.childAt] at h1
     simp only [NodeM.logIdx] at h5
     simp only [NodeM.repOk, Bool.and_eq_true, decide_eq_true_eq] at hm
+    obtain ⟨⟨hrp, hlen⟩, hix⟩ := hm
     cases hp : st[j]? with
     | none => simp [hp] at h1
     | some p =>
@@ -145,11 +164,14 @@ theorem setChildAt_spec (m : NodeM) (j i : Nat) (c' : NodeM) (hm : m.repOk = tru
       have hpl : pairLive p = true := by simpa [pairLive, h1] using h2
       obtain ⟨e1, e2⟩ := absPairs_set st j p c' hp hpl hl'
       have hk := absPairs_getElem st j p hp hpl
+      have hh := rep_live_hash st hrp p (List.mem_of_getElem? hp) hpl
+      have hix' : ixOk (st.set j (p.1, p.2.1, c')) ix = true := by
+        rw [ixOk_congr _ _ ix (skel_set_val st j p c' hp hpl hl')]; exact hix
       simp only [NodeM.setChildAt, setVal, hp, NodeM.abs, Tree.setKid, e1, h5, NodeM.repOk, Bool.and_eq_true,
-        decide_eq_true_eq, e2, hm.2, and_true]
+        decide_eq_true_eq, e2, hlen, hix', and_true]
       rw [h5] at hk
       simp only [hk, true_and]
-      exact repPairs_set st j _ hm.1 (fun _ => hr') (by simp [pairLive, hl'])
+      exact repPairs_set st j _ hrp (fun _ => ⟨hr', hh⟩) (by simp [pairLive, hl'])
   | objLazy pre rest =>
     simp only [NodeM.childAt] at h1
     simp only [NodeM.logIdx] at h5
@@ -168,7 +190,8 @@ theorem setChildAt_spec (m : NodeM) (j i : Nat) (c' : NodeM) (hm : m.repOk = tru
       rw [h5] at hk hlt
       simp only [NodeM.setChildAt, setVal, hp, NodeM.abs, Tree.setKid, e1, h5, NodeM.repOk, Bool.and_eq_true, hne,
         and_true, List.getElem?_append_left hlt, hk]
-      refine ⟨?_, repPairs_set pre j _ hr (fun _ => hr') (by simp [pairLive, hl']), ?_⟩
+      have hh := rep_live_hash pre hr p (List.mem_of_getElem? hp) hpl
+      refine ⟨?_, repPairs_set pre j _ hr (fun _ => ⟨hr', hh⟩) (by simp [pairLive, hl']), ?_⟩
       · rw [List.set_append_left _ _ hlt]
       · rw [allLivePairs_iff] at hl ⊢
         exact allLive_set pairLive pre j _ hl (by simpa [pairLive] using hl')
@@ -268,7 +291,10 @@ theorem mkLazyObj_spec (pre : List PairM) (rest : List (Key × Tree)) (hr : repP
     (mkLazyObj pre rest).abs = .obj (absPairs pre ++ rest) ∧ (mkLazyObj pre rest).repOk = true ∧
     (mkLazyObj pre rest).isRaw = false := by
   cases rest with
-  | nil => simp [mkLazyObj, mkObject, NodeM.abs, NodeM.repOk, NodeM.isRaw, hr, countLive_all _ _ hl]
+  | nil =>
+    obtain ⟨m1, m2⟩ := mkObject_spec pre hr hl
+    simp only [mkLazyObj, m1, m2, List.append_nil, true_and]
+    simp [mkObject, NodeM.isRaw]
   | cons y ys => simp [mkLazyObj, NodeM.abs, NodeM.repOk, NodeM.isRaw, hr, (allLivePairs_iff pre).mpr hl]
 
 theorem mkLazyObj_childAt (pre : List PairM) (rest : List (Key × Tree)) (j : Nat) :
@@ -299,9 +325,10 @@ theorem skipIndexPairLazy_spec : ∀ (rest : List (Key × Tree)) (pre : List Pai
      | some j => FoundAt r.1 j index
      | none => (absPairs pre ++ rest)[index]? = none)
   | [], pre, index, hr, hl, hle => by
-    simp only [skipIndexPairLazy, mkObject, NodeM.abs, NodeM.repOk, NodeM.isRaw, hr, countLive_all _ _ hl,
-      List.append_nil, Bool.true_and, decide_true, true_and]
+    obtain ⟨m1, m2⟩ := mkObject_spec pre hr hl
+    simp only [skipIndexPairLazy, m1, m2, List.append_nil, true_and]
     have := absPairs_length_all pre hl
+    refine ⟨by simp [mkObject, NodeM.isRaw], ?_⟩
     simp; omega
   | x :: r, pre, index, hr, hl, hle => by
     obtain ⟨hr', hl', habs⟩ := rawPair_facts pre x hr hl
@@ -343,9 +370,9 @@ theorem skipKeyLazy_spec : ∀ (rest : List (Key × Tree)) (pre : List PairM) (k
      | some j => ∃ i, FoundAt r.1 j i ∧ findKey key (absPairs pre ++ rest) = some i
      | none => findKey key (absPairs pre ++ rest) = none ∧ ∃ l st ix, r.1 = .obj l st ix)
   | [], pre, key, hr, hl, hnf => by
-    simp only [skipKeyLazy, mkObject, NodeM.abs, NodeM.repOk, NodeM.isRaw, hr, countLive_all _ _ hl,
-      List.append_nil, Bool.true_and, decide_true, true_and, hnf]
-    exact ⟨_, _, _, rfl⟩
+    obtain ⟨m1, m2⟩ := mkObject_spec pre hr hl
+    simp only [skipKeyLazy, m1, m2, List.append_nil, true_and, hnf]
+    exact ⟨by simp [mkObject, NodeM.isRaw], _, _, _, rfl⟩
   | x :: r, pre, key, hr, hl, hnf => by
     obtain ⟨hr', hl', habs⟩ := rawPair_facts pre x hr hl
     have hlen := absPairs_length_all pre hl
